@@ -1,14 +1,147 @@
 (** C05 -- what validators sign binds the whole message; message ids are never reused.
     Only statements closed by [exact]; proofs in Base/AbiProofs.v, Evm/SignBytesProofs.v,
-    Evm/MsgIdsProofs.v. *)
-From Coq Require Import List ZArith Bool.
+    Evm/MsgIdsProofs.v.
+
+    Reading aid.
+    [enc v] is go-ethereum's ABI encoding (abi.Arguments.Pack) of the value [v]; [typed t v] says v
+    is a value of ABI type t.  An [item] is a queued cross-chain message (five actions) or a skyway
+    batch with the values the Go code reads.  [sign_bytes keccak it] is what
+    QueuedSignedMessage.GetBytesToSign / OutgoingTxBatch.GetCheckpoint return:
+    keccak(selector ++ enc(args)), the argument list, ABI signature and selector of each action being
+    the ones TRANSLATED from the source (Gen/C05.v: abi.Arguments literals and Pack(...) arguments of
+    turnstone_abi.go / batch.go); for a valset update the first argument is the keccak of an inner
+    checkpoint(...) pre-image.  [fval it f] is the ABI value the code puts in the slot of field [f]:
+    the EFFECTIVE value the remote contract is handed (estimate 0 reads as the default 300000, nil
+    fees as the default fees, ids / powers / nonces go through Go's int64 cast and two's complement,
+    the turnstone id is a right-padded bytes32, the fee payer a left-padded one, addresses are the
+    20 bytes HexToAddress yields).  [delivered_fields k] are the arguments of
+    contractABI.Pack("<method>", consensus, ...) in eth_txable.go (translated), for a batch the
+    arguments of submit_batch.  [keccak] is ANY function with 32-byte output: no injectivity is
+    assumed, the conclusions carry the explicit collision disjunct.
+    Ids: [run ops] is the state of one consensus keeper after the history [ops] of Put /
+    Put-with-MsgIDToReplace / Remove over any number of queues; [allocated_ids ops] the ids handed
+    out, in order. *)
+From Coq Require Import String List ZArith Bool Sorted.
 From Coq Require Import Strings.Byte.
-From Paloma Require Import Base.Abi Base.AbiProofs Evm.SignFields Evm.SignBytes Evm.SignBytesProofs.
+From Paloma Require Import Base.Abi Base.AbiProofs Evm.SignFields Evm.SignBytes Evm.SignBytesProofs
+  Evm.MsgIds Evm.MsgIdsProofs.
 From Paloma Require Gen.C05.
 Import ListNotations.
 Open Scope Z_scope.
 
+(** The ABI encoding is injective on well-typed values of one type -- general: nested tuples,
+    dynamic arrays of dynamic tuples, bytes; and even when followed by arbitrary further bytes. *)
+Theorem abi_enc_injective : forall t v v', typed t v -> typed t v' -> enc v = enc v' -> v = v'.
+Proof. exact AbiProofs.abi_enc_injective. Qed.
+Print Assumptions abi_enc_injective.
+
+Theorem abi_enc_prefix_injective : forall t v v' r r', typed t v -> typed t v' ->
+  enc v ++ r = enc v' ++ r' -> v = v' /\ r = r'.
+Proof. exact (fun t v v' r r' H H' => enc_prefix_injective t v v' H H' r r'). Qed.
+Print Assumptions abi_enc_prefix_injective.
+
+(** The model's slot types are the ABI signatures written in the source. *)
+Theorem model_signatures_are_the_sources : forall k, map slot_ty (signed_slots k) = signature k.
+Proof. exact signature_matches. Qed.
+Print Assumptions model_signatures_are_the_sources.
+
+(** Every value handed to the bridge contract on delivery sits in a slot of the signing pre-image
+    (computed over the generated lists: dropping an argument from a Pack call breaks this), and so
+    does the deployment id wherever the contract's scheme includes it. *)
 Theorem delivered_subset_signed : forall k, via_bridge_contract k = true ->
-  incl (delivered_fields k) (bound_fields k).
-Proof. exact delivered_subset_signed_all. Qed.
+  incl (delivered_fields k) (bound_fields k) /\
+  (scheme_has_id k = true -> In FTurnstoneId (bound_fields k)).
+Proof. exact (fun k H => conj (delivered_subset_signed_all k H) (id_bound_where_scheme_has_it k)). Qed.
 Print Assumptions delivered_subset_signed.
+
+(** Equal signing bytes => every delivered value equal (and the deployment id, where the scheme has
+    it) -- or a keccak collision.  All items of one action kind, all field values. *)
+Theorem signbytes_bind_delivered_fields :
+  forall (keccak : list byte -> list byte), (forall x, length (keccak x) = 32%nat) ->
+  forall it it', wf it -> wf it' -> kind_of it = kind_of it' -> via_bridge_contract (kind_of it) = true ->
+  sign_bytes keccak it = sign_bytes keccak it' ->
+  ((forall f, In f (delivered_fields (kind_of it)) -> fval it f = fval it' f) /\
+   (scheme_has_id (kind_of it) = true -> fval it FTurnstoneId = fval it' FTurnstoneId))
+  \/ keccak_collision keccak.
+Proof. exact signbytes_bind_delivered_fields_all. Qed.
+Print Assumptions signbytes_bind_delivered_fields.
+
+(** The same for EVERY slot of the pre-image (the inner checkpoint's slots included). *)
+Theorem signbytes_bind_signed_fields :
+  forall (keccak : list byte -> list byte), (forall x, length (keccak x) = 32%nat) ->
+  forall it it', wf it -> wf it' -> kind_of it = kind_of it' -> via_bridge_contract (kind_of it) = true ->
+  sign_bytes keccak it = sign_bytes keccak it' ->
+  (forall f, In f (bound_fields (kind_of it)) -> fval it f = fval it' f) \/ keccak_collision keccak.
+Proof. exact signbytes_bind_signed_fields_all. Qed.
+Print Assumptions signbytes_bind_signed_fields.
+
+(** Changing any delivered value, alone or together with others, changes the signing bytes. *)
+Theorem changed_delivered_value_changes_signbytes :
+  forall (keccak : list byte -> list byte), (forall x, length (keccak x) = 32%nat) ->
+  forall it it' f, wf it -> wf it' -> kind_of it = kind_of it' -> via_bridge_contract (kind_of it) = true ->
+  In f (delivered_fields (kind_of it)) -> fval it f <> fval it' f ->
+  sign_bytes keccak it <> sign_bytes keccak it' \/ keccak_collision keccak.
+Proof. exact changed_field_changes_signbytes. Qed.
+Print Assumptions changed_delivered_value_changes_signbytes.
+
+(** The conversions lose nothing: equal slot values mean equal raw values -- message id, deadline,
+    relayer; for a logic call the whole call; for a valset update the whole validator set. *)
+Theorem slot_values_determine_raw_values :
+  (forall it it', wf it -> wf it' -> fval it FMsgId = fval it' FMsgId -> it_id it = it_id it') /\
+  (forall it it', wf it -> wf it' -> fval it FDeadline = fval it' FDeadline ->
+                  act_deadline (it_action it) = act_deadline (it_action it')) /\
+  (forall it it', fval it FRelayer = fval it' FRelayer -> it_relayer it = it_relayer it') /\
+  (forall id est ts rel c p fs s d id' est' ts' rel' c' p' fs' s' d',
+     let it := mkItem id est ts rel (SubmitLogicCall c p fs s d) in
+     let it' := mkItem id' est' ts' rel' (SubmitLogicCall c' p' fs' s' d') in
+     wf it -> wf it' -> (forall f, In f (delivered_fields KLogicCall) -> fval it f = fval it' f) ->
+     c = c' /\ p = p' /\ eff_fees fs = eff_fees fs' /\ bytes32_left s = bytes32_left s' /\ id = id' /\ d = d' /\ rel = rel') /\
+  (forall id est ts rel vs ps i id' est' ts' rel' vs' ps' i',
+     let it := mkItem id est ts rel (UpdateValset vs ps i) in
+     let it' := mkItem id' est' ts' rel' (UpdateValset vs' ps' i') in
+     wf it -> wf it' -> (forall f, In f (delivered_fields KUpdateValset) -> fval it f = fval it' f) ->
+     vs = vs' /\ ps = ps' /\ i = i' /\ rel = rel' /\ eff_estimate KUpdateValset est = eff_estimate KUpdateValset est').
+Proof.
+  exact (conj fval_msg_id (conj fval_deadline (conj fval_relayer (conj fval_logic_call fval_valset)))).
+Qed.
+Print Assumptions slot_values_determine_raw_values.
+
+(** The bridge-contract upload is not presented to a remote contract; its bytes still bind
+    bytecode and message id. *)
+Theorem upload_signbytes_bind_bytecode_and_id :
+  forall (keccak : list byte -> list byte) id id' est est' ts ts' rel rel' b b',
+  u64 id -> u64 id' ->
+  sign_bytes keccak (mkItem id est ts rel (UploadSmartContract b)) =
+  sign_bytes keccak (mkItem id' est' ts' rel' (UploadSmartContract b')) ->
+  (b = b' /\ id = id') \/ keccak_collision keccak.
+Proof. exact upload_binds_bytecode_and_id. Qed.
+Print Assumptions upload_signbytes_bind_bytecode_and_id.
+
+(** Ids are handed out in strictly increasing order over every history (fewer than 2^64 ops). *)
+Theorem msg_ids_strictly_increase : forall ops, Z.of_nat (length ops) < MsgIds.two64 ->
+  StronglySorted Z.lt (allocated_ids ops) /\ NoDup (allocated_ids ops).
+Proof. exact (fun ops H => conj (ids_strictly_increase ops H) (ids_never_reused ops H)). Qed.
+Print Assumptions msg_ids_strictly_increase.
+
+(** An id lives in at most one queue, once, and every id in a queue was handed out by a Put of
+    the history -- over all Put / replace / Remove histories on any number of queues. *)
+Theorem msg_ids_unique_across_queues : forall ops q q' i, Z.of_nat (length ops) < MsgIds.two64 ->
+  In i (ids (qs (run ops) q)) -> In i (ids (qs (run ops) q')) ->
+  q = q' /\ NoDup (ids (qs (run ops) q)) /\ In i (allocated_ids ops) /\ 1 <= i <= counter (run ops).
+Proof. exact ids_unique_across_queues. Qed.
+Print Assumptions msg_ids_unique_across_queues.
+
+(** Put with MsgIDToReplace keeps the id of the message it replaces and allocates none. *)
+Theorem replace_reuses_id_and_allocates_none : forall s q r c, r <> 0 ->
+  counter (fst (step s (OPut q r c))) = counter s /\
+  alloc_of (OPut q r c) (snd (step s (OPut q r c))) = [] /\
+  (forall i, snd (step s (OPut q r c)) = RId i -> i = r /\ In r (ids (qs s q))).
+Proof. exact replace_allocates_none. Qed.
+Print Assumptions replace_reuses_id_and_allocates_none.
+
+(** The counter discipline the id model assumes is the one in the source now. *)
+Theorem id_model_is_of_current_source :
+  Gen.C05.id_counter_key_expr = "consensusQueueIDCounterKey"%string /\
+  Gen.C05.put_replace_guard = true /\ Gen.C05.id_increment_is_last_plus_one = true.
+Proof. exact source_counter_shape. Qed.
+Print Assumptions id_model_is_of_current_source.
